@@ -485,9 +485,12 @@ func caseC09(r *rand.Rand, cw *CalcWriter, label string, maxT int) {
 	if r.Intn(4) == 0 {
 		gp.PNegLen = 0.1
 	}
-	nt := pickTips(r, maxT)
+	nt := pickTipsIn(r, maxT, 96)
 	names := tipNamesN("t", nt)
 	n := 1 + r.Intn(8)
+	if nt > 60 {
+		n = 1 + r.Intn(3) // large trees: small collections (the definition is recomputed by TLC on every tree)
+	}
 	coll := collection(r, &gp, names, n, true)
 	// lengths: every tree carries all of them (most cases); none does (a collection of topologies); or some trees / some
 	// branches do not (the mean is then over the trees that give the split a length)
